@@ -176,51 +176,144 @@ package l1infotreesync
 
 // ---- look-ups the claim flow (C12), the certificate proofs (C09) and the oracle (C15) rest on: assumed semantics
 // (A5), texts pinned
+// l1LookupNoRows: the last look-up statement found no row (ghost). The look-ups below are proved rather than trusted:
+// the statement's meaning (its WHERE / ORDER BY) is assumed at the library call (A5), the function's own logic is
+// checked - it reads through the store's connection, hands back the row read, calls nothing else, and reports "not
+// found" exactly when the statement found no row.
+//@ ghost var l1LookupNoRows bool
+//@ extern github.com/russross/meddler.QueryRow@l1infotreesync.(*processor).GetInfoByGlobalExitRoot (conn, dst, query, args)
+//@   requires typeIs(dst, *L1InfoTreeLeaf) && cast(dst, *L1InfoTreeLeaf) != nil
+//@   modifies *cast(dst, *L1InfoTreeLeaf), l1LookupNoRows
+//@   ensures result != errvar("db.ErrNotFound") && ((result != nil && !isErr(result, sql.ErrNoRows)) ==> !isErr(result, errvar("db.ErrNotFound")))
+//@   ensures l1LookupNoRows == (result != nil && isErr(result, sql.ErrNoRows))
+//@   ensures result == nil ==> cast(dst, *L1InfoTreeLeaf).GlobalExitRoot == caller.ger
 //@ func (p *processor) GetInfoByGlobalExitRoot
 //@   props C09 C12
-//@   trusted
-//@   modifies nothing
 //@   sqltext "SELECT * FROM l1info_leaf WHERE global_exit_root = $1 LIMIT 1;"
+//@   requires p != nil
+//@   modifies l1LookupNoRows
+//@   nocalls
+//@   allowcalls QueryRow ReturnErrNotFound Hex String
+//@   ensures[a-leaf-carrying-that-global-exit-root] result1 == nil ==> result0 != nil && result0.GlobalExitRoot == ger
+//@   ensures[not-found-only-when-the-statement-found-no-row] (result1 != nil && isErr(result1, db.ErrNotFound)) == l1LookupNoRows
+//@   assert call:QueryRow arg0 == p.db
 //@ func (p *processor) getInfoByIndexWithTx
 //@   props C09 C11 C12
 //@   trusted
 //@   modifies nothing
 //@   sqltext "SELECT * FROM l1info_leaf WHERE position = $1;"
+//@ extern github.com/russross/meddler.QueryRow@l1infotreesync.(*processor).GetLastInfo (conn, dst, query, args)
+//@   requires typeIs(dst, *L1InfoTreeLeaf) && cast(dst, *L1InfoTreeLeaf) != nil
+//@   modifies *cast(dst, *L1InfoTreeLeaf), l1LookupNoRows
+//@   ensures result != errvar("db.ErrNotFound") && ((result != nil && !isErr(result, sql.ErrNoRows)) ==> !isErr(result, errvar("db.ErrNotFound")))
+//@   ensures l1LookupNoRows == (result != nil && isErr(result, sql.ErrNoRows))
+//@   ensures result == nil ==> true
 //@ func (p *processor) GetLastInfo
 //@   props C11 C12
-//@   trusted
-//@   modifies nothing
 //@   sqltext "SELECT * FROM l1info_leaf ORDER BY block_num DESC, block_pos DESC LIMIT 1;"
+//@   requires p != nil
+//@   modifies l1LookupNoRows
+//@   nocalls
+//@   allowcalls QueryRow ReturnErrNotFound Hex String
+//@   ensures[a-leaf] result1 == nil ==> result0 != nil && true
+//@   ensures[not-found-only-when-the-statement-found-no-row] (result1 != nil && isErr(result1, db.ErrNotFound)) == l1LookupNoRows
+//@   assert call:QueryRow arg0 == p.db
+//@ extern github.com/russross/meddler.QueryRow@l1infotreesync.(*processor).GetFirstInfo (conn, dst, query, args)
+//@   requires typeIs(dst, *L1InfoTreeLeaf) && cast(dst, *L1InfoTreeLeaf) != nil
+//@   modifies *cast(dst, *L1InfoTreeLeaf), l1LookupNoRows
+//@   ensures result != errvar("db.ErrNotFound") && ((result != nil && !isErr(result, sql.ErrNoRows)) ==> !isErr(result, errvar("db.ErrNotFound")))
+//@   ensures l1LookupNoRows == (result != nil && isErr(result, sql.ErrNoRows))
+//@   ensures result == nil ==> true
 //@ func (p *processor) GetFirstInfo
 //@   props C12
-//@   trusted
-//@   modifies nothing
 //@   sqltext "SELECT * FROM l1info_leaf ORDER BY block_num ASC, block_pos ASC LIMIT 1;"
+//@   requires p != nil
+//@   modifies l1LookupNoRows
+//@   nocalls
+//@   allowcalls QueryRow ReturnErrNotFound Hex String
+//@   ensures[a-leaf] result1 == nil ==> result0 != nil && true
+//@   ensures[not-found-only-when-the-statement-found-no-row] (result1 != nil && isErr(result1, db.ErrNotFound)) == l1LookupNoRows
+//@   assert call:QueryRow arg0 == p.db
+//@ extern github.com/russross/meddler.QueryRow@l1infotreesync.(*processor).GetFirstInfoAfterBlock (conn, dst, query, args)
+//@   requires typeIs(dst, *L1InfoTreeLeaf) && cast(dst, *L1InfoTreeLeaf) != nil
+//@   modifies *cast(dst, *L1InfoTreeLeaf), l1LookupNoRows
+//@   ensures result != errvar("db.ErrNotFound") && ((result != nil && !isErr(result, sql.ErrNoRows)) ==> !isErr(result, errvar("db.ErrNotFound")))
+//@   ensures l1LookupNoRows == (result != nil && isErr(result, sql.ErrNoRows))
+//@   ensures result == nil ==> cast(dst, *L1InfoTreeLeaf).BlockNumber >= caller.blockNum
 //@ func (p *processor) GetFirstInfoAfterBlock
 //@   props C12
-//@   trusted
-//@   modifies nothing
 //@   sqltext "SELECT * FROM l1info_leaf WHERE block_num >= $1 ORDER BY block_num ASC, block_pos ASC LIMIT 1;"
+//@   requires p != nil
+//@   modifies l1LookupNoRows
+//@   nocalls
+//@   allowcalls QueryRow ReturnErrNotFound Hex String
+//@   ensures[a-leaf-at-or-after-that-block] result1 == nil ==> result0 != nil && result0.BlockNumber >= blockNum
+//@   ensures[not-found-only-when-the-statement-found-no-row] (result1 != nil && isErr(result1, db.ErrNotFound)) == l1LookupNoRows
+//@   assert call:QueryRow arg0 == p.db
+//@ extern github.com/russross/meddler.QueryRow@l1infotreesync.(*processor).GetFirstL1InfoWithRollupExitRoot (conn, dst, query, args)
+//@   requires typeIs(dst, *L1InfoTreeLeaf) && cast(dst, *L1InfoTreeLeaf) != nil
+//@   modifies *cast(dst, *L1InfoTreeLeaf), l1LookupNoRows
+//@   ensures result != errvar("db.ErrNotFound") && ((result != nil && !isErr(result, sql.ErrNoRows)) ==> !isErr(result, errvar("db.ErrNotFound")))
+//@   ensures l1LookupNoRows == (result != nil && isErr(result, sql.ErrNoRows))
+//@   ensures result == nil ==> cast(dst, *L1InfoTreeLeaf).RollupExitRoot == caller.rollupExitRoot
 //@ func (p *processor) GetFirstL1InfoWithRollupExitRoot
 //@   props C12
-//@   trusted
-//@   modifies nothing
 //@   sqltext "SELECT * FROM l1info_leaf WHERE rollup_exit_root = $1 ORDER BY block_num ASC, block_pos ASC LIMIT 1;"
+//@   requires p != nil
+//@   modifies l1LookupNoRows
+//@   nocalls
+//@   allowcalls QueryRow ReturnErrNotFound Hex String
+//@   ensures[a-leaf-carrying-that-rollup-exit-root] result1 == nil ==> result0 != nil && result0.RollupExitRoot == rollupExitRoot
+//@   ensures[not-found-only-when-the-statement-found-no-row] (result1 != nil && isErr(result1, db.ErrNotFound)) == l1LookupNoRows
+//@   assert call:QueryRow arg0 == p.db
+//@ extern github.com/russross/meddler.QueryRow@l1infotreesync.(*processor).GetLastVerifiedBatches (conn, dst, query, args)
+//@   requires typeIs(dst, *VerifyBatches) && cast(dst, *VerifyBatches) != nil
+//@   modifies *cast(dst, *VerifyBatches), l1LookupNoRows
+//@   ensures result != errvar("db.ErrNotFound") && ((result != nil && !isErr(result, sql.ErrNoRows)) ==> !isErr(result, errvar("db.ErrNotFound")))
+//@   ensures l1LookupNoRows == (result != nil && isErr(result, sql.ErrNoRows))
+//@   ensures result == nil ==> cast(dst, *VerifyBatches).RollupID == caller.rollupID
 //@ func (p *processor) GetLastVerifiedBatches
 //@   props C12
-//@   trusted
-//@   modifies nothing
 //@   sqltext "SELECT * FROM verify_batches WHERE rollup_id = $1 ORDER BY block_num DESC, block_pos DESC LIMIT 1;"
+//@   requires p != nil
+//@   modifies l1LookupNoRows
+//@   nocalls
+//@   allowcalls QueryRow ReturnErrNotFound Hex String
+//@   ensures[a-verification-of-that-rollup] result1 == nil ==> result0 != nil && result0.RollupID == rollupID
+//@   ensures[not-found-only-when-the-statement-found-no-row] (result1 != nil && isErr(result1, db.ErrNotFound)) == l1LookupNoRows
+//@   assert call:QueryRow arg0 == p.db
+//@ extern github.com/russross/meddler.QueryRow@l1infotreesync.(*processor).GetFirstVerifiedBatches (conn, dst, query, args)
+//@   requires typeIs(dst, *VerifyBatches) && cast(dst, *VerifyBatches) != nil
+//@   modifies *cast(dst, *VerifyBatches), l1LookupNoRows
+//@   ensures result != errvar("db.ErrNotFound") && ((result != nil && !isErr(result, sql.ErrNoRows)) ==> !isErr(result, errvar("db.ErrNotFound")))
+//@   ensures l1LookupNoRows == (result != nil && isErr(result, sql.ErrNoRows))
+//@   ensures result == nil ==> cast(dst, *VerifyBatches).RollupID == caller.rollupID
 //@ func (p *processor) GetFirstVerifiedBatches
 //@   props C12
-//@   trusted
-//@   modifies nothing
 //@   sqltext "SELECT * FROM verify_batches WHERE rollup_id = $1 ORDER BY block_num ASC, block_pos ASC LIMIT 1;"
+//@   requires p != nil
+//@   modifies l1LookupNoRows
+//@   nocalls
+//@   allowcalls QueryRow ReturnErrNotFound Hex String
+//@   ensures[a-verification-of-that-rollup] result1 == nil ==> result0 != nil && result0.RollupID == rollupID
+//@   ensures[not-found-only-when-the-statement-found-no-row] (result1 != nil && isErr(result1, db.ErrNotFound)) == l1LookupNoRows
+//@   assert call:QueryRow arg0 == p.db
+//@ extern github.com/russross/meddler.QueryRow@l1infotreesync.(*processor).GetFirstVerifiedBatchesAfterBlock (conn, dst, query, args)
+//@   requires typeIs(dst, *VerifyBatches) && cast(dst, *VerifyBatches) != nil
+//@   modifies *cast(dst, *VerifyBatches), l1LookupNoRows
+//@   ensures result != errvar("db.ErrNotFound") && ((result != nil && !isErr(result, sql.ErrNoRows)) ==> !isErr(result, errvar("db.ErrNotFound")))
+//@   ensures l1LookupNoRows == (result != nil && isErr(result, sql.ErrNoRows))
+//@   ensures result == nil ==> cast(dst, *VerifyBatches).RollupID == caller.rollupID && cast(dst, *VerifyBatches).BlockNumber >= caller.blockNum
 //@ func (p *processor) GetFirstVerifiedBatchesAfterBlock
 //@   props C12
-//@   trusted
-//@   modifies nothing
 //@   sqltext "SELECT * FROM verify_batches WHERE rollup_id = $1 AND block_num >= $2 ORDER BY block_num ASC, block_pos ASC LIMIT 1;"
+//@   requires p != nil
+//@   modifies l1LookupNoRows
+//@   nocalls
+//@   allowcalls QueryRow ReturnErrNotFound Hex String
+//@   ensures[a-verification-of-that-rollup-at-or-after-that-block] result1 == nil ==> result0 != nil && result0.RollupID == rollupID && result0.BlockNumber >= blockNum
+//@   ensures[not-found-only-when-the-statement-found-no-row] (result1 != nil && isErr(result1, db.ErrNotFound)) == l1LookupNoRows
+//@   assert call:QueryRow arg0 == p.db
 //@ func (p *processor) GetProcessedBlockUntil
 //@   props C09 C15
 //@   trusted
